@@ -538,7 +538,9 @@ public:
           // Else, for tainted_volatile, this will allow a
           // time-of-check-time-of-use attack
           auto val_copy = std::make_unique<T_Deref>();
-          *val_copy = *val;
+          // Read the value through the tainted_volatile reference so that it
+          // is loaded with the width and encoding of the sandbox's ABI
+          *val_copy = (*impl()).get_raw_value();
           return verifier(std::move(val_copy));
         }
       }
@@ -608,9 +610,9 @@ private:
     auto target = std::make_unique<T_CopyAndVerifyRangeEl[]>(count);
 
     for (size_t i = 0; i < count; i++) {
-      auto p_src_i_tainted = &(impl()[i]);
-      auto p_src_i = p_src_i_tainted.get_raw_value();
-      detail::convert_type_fundamental_or_array(target[i], *p_src_i);
+      // Read each element through its tainted_volatile reference so that it is
+      // loaded with the width and encoding of the sandbox's ABI
+      target[i] = impl()[i].get_raw_value();
     }
 
     return target;
